@@ -736,7 +736,7 @@ class LookupExternalTypes(_RemoveTypeParametersFromGenericAny, _ToTypeVisitor):
       star_import_names.add(p + x + ".*")
     new_aliases = []
     new_getattrs = set()
-    for module in self._star_imports:
+    for module in sorted(self._star_imports):
       aliases, getattrs = self._ImportAll(module)
       new_aliases.extend(aliases)
       new_getattrs.update(getattrs)
